@@ -190,6 +190,14 @@ def run_case(case) -> core.Outcome:
                 for name, got, want in (("prefix-product", prod, vp * vq), ("prefix-quotient", quot, vp / vq)):
                     if not _close(Fraction(got.quantify()), want):
                         fail(name, f"{case['p']} {name} {case['q']} has scale {got.quantify()!r}, exact {float(want)!r}", p, q)
+            # cancellation: (p*q)/q and (p/q)*q denote p (identical object within one base,
+            # same scale within 1e-9 across bases)
+            for name, got in (("cancel-mul-div", (p * q) / q), ("cancel-div-mul", (p / q) * q)):
+                if not _mixed(p, q):
+                    if got is not p:
+                        fail(name, f"({case['p']} x {case['q']}) cancelled again is {got!r}, not {case['p']}", p, q)
+                elif not _close(Fraction(got.quantify()), vp):
+                    fail(name, f"({case['p']} x {case['q']}) cancelled again has scale {got.quantify()!r}, exact {float(vp)!r}", p, q)
             if p * m.IdentityPrefix is not p or m.IdentityPrefix * p is not p or p / m.IdentityPrefix is not p:
                 fail("identity-neutral", f"identity prefix is not neutral for {case['p']}", p)
             if case["p"] and case["q"]:
